@@ -24,20 +24,24 @@ func kernelGenerateConverters(e2e string) layera.Kernel {
 }
 
 func runC15(opt *Options) int {
+	ints := map[string]int{"VerifC15PackageMax": 6, "VerifC15FileMax": 7, "VerifC15NameMax": 8}
+	if opt.Thorough() {
+		ints = map[string]int{"VerifC15PackageMax": 9, "VerifC15FileMax": 10, "VerifC15NameMax": 11}
+	}
 	lr := &laRun{
 		Opt:  opt,
 		Pkgs: []string{"generator", "config", "."},
 		Kernels: []layera.Kernel{
 			kernelFileManager(),
-			{Name: "K8.outputpackage", Pkg: "config", Harness: "VerifHarness_C15_OutputPackage", Unwind: 64, Stub: []string{"github.com/jmattheis/goverter/method.Parse"}},
-			{Name: "K8.outputfile", Pkg: "config", Harness: "VerifHarness_C15_OutputFile", Unwind: 64, Stub: []string{"github.com/jmattheis/goverter/method.Parse"}, E2E: "c15"},
-			{Name: "K8.defaultoutputfile", Pkg: "config", Harness: "VerifHarness_C15_DefaultOutputFile", Unwind: 64},
+			{Name: "K8.outputpackage", Pkg: "config", Harness: "VerifHarness_C15_OutputPackage", Unwind: 64, Stub: []string{"github.com/jmattheis/goverter/method.Parse"}, SetInts: ints},
+			{Name: "K8.outputfile", Pkg: "config", Harness: "VerifHarness_C15_OutputFile", Unwind: 64, Stub: []string{"github.com/jmattheis/goverter/method.Parse"}, E2E: "c15", SetInts: ints},
+			{Name: "K8.defaultoutputfile", Pkg: "config", Harness: "VerifHarness_C15_DefaultOutputFile", Unwind: 64, SetInts: ints},
 			{Name: "K8.getpackages", Pkg: "config", Harness: "VerifHarness_C15_GetPackages", Unwind: 64, NoMapPermute: true},
 			{Name: "K8.resolvepackage", Pkg: "config", Harness: "VerifHarness_C15_ResolvePackage", Unwind: 64, E2E: "c15"},
 			kernelGenerateConverters("c15"),
 		},
 		Funcs:  []string{"generator.(*fileManager).Get", "generator.getOutputDir", "config.(*ConverterConfig).PackageID", "config.parseConverterLine (output:package, output:file arms)", "parse.File", "parse.String", "config.defaultOutputFile", "config.getPackages", "config.registerConverterLines", "config.registerMethodLines", "config.resolveOutputPackage", "config.resolvePackage", "pkgload.New", "pkgload.(*PackageLoader).load/GetUncheckedPkg", "goverter.GenerateConverters", "goverter.generateConvertersRaw", "goverter.writeFiles"},
-		Bounds: "two converters with arbitrary (atom) file names, output files, package paths and names; output:package / output:file values of <= 6/7 arbitrary non-blank ASCII bytes; declaring file names of <= 8 arbitrary bytes; <= 2 generated files",
+		Bounds: "two converters with arbitrary (atom) file names, output files, package paths and names; output:package / output:file values of <= 6/7 (thorough 9/10) arbitrary non-blank ASCII bytes; declaring file names of <= 8 (thorough 11) arbitrary bytes; <= 2 generated files",
 		Assume: k8Assume,
 	}
 	return lr.finish(lr.run(), nil)
